@@ -38,6 +38,10 @@ Inductive op :=
   | OInfinite (nb : Z) (dim : Z)                 (* corners at infinity: outside the field model, only observed *)
   | OOfMesh (nb : Z) (ss : list Z) (pad : Q)
   | ONormalize (s : Z) (k : nkind) (after : list Q)   (* Vec.normalize, in place; `after` = the contents observed afterwards *)
+  | OVecCtor (c : Z) (n : Z) (sa sb : Z) (va vb : list Q)
+      (* a Vec constructor (0 zeros(n), 1 X, 2 Y, 3 Z, other: random(n)) called TWICE with the same arguments; the two
+         results become caller arrays sa, sb; va, vb = the observed contents (the model's own for 0..3) *)
+  | OSetComp (s : Z) (i : Z) (v : Q)              (* the caller writes arr[s][i] = v *)
   | OFn (f : fn) (args : list Z) (k : nkind) (sc : list Q) (fl : list float) (cx : list bool).
       (* cx: which arguments are passed as complex numbers (2-D primitives) *)
       (* sc: exact scalar arguments; fl: what the numerical shell computed on the Python side
@@ -279,6 +283,18 @@ Definition step (st : state) (o : op) : mres * state * list (Z * (list Q * list 
       match A s with
       | Some v => (MVF (vec_normalize float FO (vq2f v) k), mkst ((s, after) :: arrs st) (boxes st), [],
                    if vq_eqb v after then 0%Z else 1%Z)
+      | None => keep MBad
+      end
+  | OVecCtor c n sa sb va vb =>
+      let m := if Z.eqb c 0 then Some (vec_zeros Q QO (Z.to_nat n)) else if Z.eqb c 1 then Some (vec_X Q QO)
+               else if Z.eqb c 2 then Some (vec_Y Q QO) else if Z.eqb c 3 then Some (vec_Z Q QO) else None in
+      let ca := match m with Some v => v | None => va end in
+      let cb := match m with Some v => v | None => vb end in
+      (MVQ (ca ++ cb), mkst ((sa, ca) :: (sb, cb) :: arrs st) (boxes st), [], 0%Z)
+  | OSetComp s i v =>
+      match A s with
+      | Some w => let w' := vset w (Z.to_nat i) v in
+                  (MNone, mkst ((s, w') :: arrs st) (boxes st), [], if vq_eqb w w' then 0%Z else 1%Z)
       | None => keep MBad
       end
   | OFn f args k sc fl cx =>
